@@ -12,7 +12,7 @@ from vlib import runner, sut, std, encutil, corpusio, fuzz
 from vlib.compare import first_value_diff
 from vlib.runner import Outcome, Report, Reject
 from gen import messages as gmsg, templates as gtemplates, pool as gpool
-from gen.values import GenSource
+from gen.values import GenSource, source_for
 from refbufr import frame, codec, tables as rtables, tree as rtree, message as rmessage, IllFormed, Unsupported
 from pybufrkit.templatecompiler import CompiledTemplateManager, loads_compiled_template
 
@@ -133,7 +133,7 @@ def gen_history(ch, opts):
                 c = gmsg.Case()
                 c.meta, c.ids, c.tables = meta, list(base.ids), base.tables
                 c.tree = rtree.parse(c.ids, c.tables)
-                src = GenSource(ch)
+                src = source_for(ch, base.features)
                 c.decoded = codec.walk_all(c.tree, c.tables, meta['n_subsets'], meta['is_compressed'], lambda k: src)
                 if c.decoded.ambiguous():
                     raise Reject('ambiguous')
@@ -170,11 +170,11 @@ def gen_history(ch, opts):
                         c = gmsg.Case()
                         c.meta, c.ids, c.tables = meta, ids, base.tables
                         c.tree = rtree.parse(c.ids, c.tables)
-                        src = GenSource(ch)
+                        src = source_for(ch, base.features)
                         c.decoded = codec.walk_all(c.tree, c.tables, meta['n_subsets'], meta['is_compressed'], lambda k: src)
                         if c.decoded.ambiguous():
                             raise Reject('ambiguous')
-                        c.features = c.decoded.features() | {'near_twin_template'}
+                        c.features = c.decoded.features() | {'near_twin_template'} | ({'all_bits_zero'} & set(base.features))
                         gmsg.build_bytes(c)
                         cases.append(c)
                         continue
